@@ -269,4 +269,17 @@ META = {
         "text": 'Held on the histories produced: for every operation the status-sink log contained exactly one squeezed-out report per non-inclusion exit (~130k) and none for handed-out, committed, preconfirmed or still-pooled txs.',
         "note": "Trusted: hook verif.rs (thin calls into the worker's own methods), harness chain and status ports, TransactionBuilder with into_checked_basic and Metadata::new_test. The verification stage (signatures, fees, predicates, service-level TTL timers) is bypassed; Upgrade/Upload txs are not generated; block and preconfirmation environments are always chain-valid; pool panics are judged only by the owning property.",
     },
+
+    "C36": {
+        "ready": True,
+        "technique": "runtime monitoring: chaingen block histories fed block by block through the real worker event processing into a real off-chain DB (+ in-process node leg with the real worker task); indexes recomputed from the on-chain tables after every block",
+        "text": "After every one of ~3.8k (quick) / ~120k (thorough) generated blocks - coin creation and consumption in 3 assets, coins created and spent within one block, zero-amount outputs, coin-like and data messages imported from the relayer and consumed, reverted scripts keeping data messages - CoinBalances equalled the sum of each owner's unspent coins per asset, MessageBalances the retryable/non-retryable sums of unspent messages, and OwnedCoins, OwnedMessageIds and CoinsToSpendIndex listed exactly the unspent coins and messages with the right owner, asset, amount and retryable flag; a real ReadView (balance, balances, owned coins/messages, coins_to_spend at total and total+1) answered accordingly; the same held on an in-process node after every produced block.",
+        "note": "Trusted: on-chain Coins/Messages tables (C02), the ~30-line recomputation, retryable = message with data. Session leg calls the public process_transactions/process_executor_events (Task::process_block is private; covered only by the node leg). ReadView::balance adds non-retryable messages only (upstream TODO); zero balances == absent.",
+    },
+    "C45": {
+        "ready": True,
+        "technique": "runtime monitoring: byte-wise database dumps around every read-only request, duplicate requests, production before/after dry runs; real Producer::dry_run over chaingen sessions (in-memory and HistoricalRocksDB) and a FuelService node through FuelClient",
+        "text": "For ~9k (quick) / ~120k (thorough) dry-run requests at producer level (valid, reverting, invalid and unknown-contract transactions, singly and in groups; latest, next, past and future heights; utxo validation on/off; gas price given/default; storage-read recording) every on-chain and relayer column was byte-identical before and after, the repeated request gave the identical answer, and each block produced after all its dry runs was identical to the one produced before them; on an in-process node dry_run, dry_run_opt (incl. past heights), record_storage_reads, estimate_predicates, assemble_tx and 12 read-only queries left the on-chain, off-chain and relayer databases byte-identical, deterministic endpoints repeated their answers, and dry-run transactions (and the signed assembled transaction) were then accepted by the pool and included.",
+        "note": "Trusted: dump covers the Column enums (not RocksDB history CFs, gas-price/compression DBs); node dumps taken while quiescent (manual blocks). Producer-level relayer/gas-price/params ports are stubs. assemble_tx/coins_to_spend are randomised: only side effects judged. Pool refusals are judged only for inputs never given to the pool.",
+    },
 }
